@@ -260,45 +260,75 @@ theorem coeff_ne_zero_of_not_isInt (d : Dec) (h : isInt d = false) : d.coeff ≠
   rw [h0] at this
   exact this (Int.dvd_zero _)
 
-theorem fits34_of_not_isInt (d : Dec) (hi : isInt d = false) (h : fits34 d = true) :
-    (trunc d).natAbs + 1 < 10 ^ basePrecision := by
-  simpa [fits34, hi] using h
+/-- a rounding that is not Inexact preserves the value -/
+theorem roundHalfUp_exact (p : Nat) (d : Dec) (h : (roundHalfUp p d).2 = false) :
+    cmp (roundHalfUp p d).1 d = .eq := by
+  unfold roundHalfUp at h ⊢
+  by_cases hm : d.coeff.natAbs < 10 ^ p
+  · simp only [hm, if_true]; exact ReflCmp.compare_self
+  · simp only [hm, if_false] at h ⊢
+    generalize numDigits d.coeff.natAbs - p = k at h ⊢
+    have hr : d.coeff.natAbs % 10 ^ k = 0 := by simpa using h
+    have hpos : 0 < 10 ^ k := Nat.pow_pos (by decide)
+    have hq : ¬ (10 ^ k ≤ 2 * (d.coeff.natAbs % 10 ^ k)) := by rw [hr]; omega
+    simp only [hq, if_false]
+    have hmq : (d.coeff.natAbs / 10 ^ k) * 10 ^ k = d.coeff.natAbs :=
+      Nat.div_mul_cancel (Nat.dvd_of_mod_eq_zero hr)
+    have hmq' : ((d.coeff.natAbs / 10 ^ k : Nat) : Int) * (10 : Int) ^ k = (d.coeff.natAbs : Int) := by
+      have := congrArg (fun n : Nat => (n : Int)) hmq
+      simpa [Int.natCast_mul, Int.natCast_pow] using this
+    rw [cmp_eq_iff_at _ _ d.exp (by simp only []; omega) (Int.le_refl _), shift_self]
+    simp only [shift]
+    have e : (d.exp + (k : Int) - d.exp).toNat = k := by omega
+    rw [e]
+    by_cases hneg : d.coeff < 0
+    · simp only [hneg, if_true]
+      rw [Int.neg_mul, hmq']; omega
+    · simp only [hneg, if_false]
+      rw [hmq']; omega
 
-/-- when the integer part fits the base precision the rounded ceil/floor are exact -/
-theorem ceil34_eq (d : Dec) (h : fits34 d = true) : ceil34 d = ofInt (ceil d) := by
-  unfold ceil34
+theorem roundInt34_eq (z : Int) (x : Dec) (h : roundInt34 z = some x) : cmp x (ofInt z) = .eq := by
+  unfold roundInt34 at h
+  simp only at h
+  split at h
+  · cases h
+  · rename_i hr
+    cases h
+    exact roundHalfUp_exact _ _ (by simpa using hr)
+
+/-- when `BaseContext.Ceil` is not Inexact its result is the ceiling -/
+theorem ceil34?_eq (d x : Dec) (h : ceil34? d = some x) : cmp x (ofInt (ceil d)) = .eq := by
+  unfold ceil34? at h
   cases hi : isInt d
-  · have hf := fits34_of_not_isInt d hi h
-    have hc := ceil_eq_floor_add_one d hi
+  · have hc := ceil_eq_floor_add_one d hi
     have hne := coeff_ne_zero_of_not_isInt d hi
-    rw [if_neg (by simp)]
+    rw [hi, if_neg (by simp)] at h
     by_cases hp : 0 < d.coeff
     · have ht : trunc d = floor d := by unfold trunc; rw [if_pos (by omega)]
-      rw [if_pos hp, roundHalfUp_of_lt, ht, hc]
-      show (trunc d + 1).natAbs < 10 ^ basePrecision
-      generalize 10 ^ basePrecision = P at hf ⊢
-      omega
+      rw [if_pos hp, ht, ← hc] at h
+      exact roundInt34_eq _ _ h
     · have ht : trunc d = ceil d := by unfold trunc; rw [if_neg (by omega)]
-      rw [if_neg hp, ht]
-  · rw [if_pos rfl, trunc_of_isInt d hi, ceil_eq_floor_of_isInt d hi]
+      rw [if_neg hp, ht] at h
+      cases h; exact ReflCmp.compare_self
+  · rw [hi, if_pos rfl, trunc_of_isInt d hi, ← ceil_eq_floor_of_isInt d hi] at h
+    cases h; exact ReflCmp.compare_self
 
-theorem floor34_eq (d : Dec) (h : fits34 d = true) : floor34 d = ofInt (floor d) := by
-  unfold floor34
+theorem floor34?_eq (d x : Dec) (h : floor34? d = some x) : cmp x (ofInt (floor d)) = .eq := by
+  unfold floor34? at h
   cases hi : isInt d
-  · have hf := fits34_of_not_isInt d hi h
-    have hc := ceil_eq_floor_add_one d hi
+  · have hc := ceil_eq_floor_add_one d hi
     have hne := coeff_ne_zero_of_not_isInt d hi
-    rw [if_neg (by simp)]
+    rw [hi, if_neg (by simp)] at h
     by_cases hp : d.coeff < 0
     · have ht : trunc d = ceil d := by unfold trunc; rw [if_neg (by omega)]
       have e : trunc d - 1 = floor d := by omega
-      rw [if_pos hp, roundHalfUp_of_lt, e]
-      show (trunc d - 1).natAbs < 10 ^ basePrecision
-      generalize 10 ^ basePrecision = P at hf ⊢
-      omega
+      rw [if_pos hp, e] at h
+      exact roundInt34_eq _ _ h
     · have ht : trunc d = floor d := by unfold trunc; rw [if_pos (by omega)]
-      rw [if_neg hp, ht]
-  · rw [if_pos rfl, trunc_of_isInt d hi]
+      rw [if_neg hp, ht] at h
+      cases h; exact ReflCmp.compare_self
+  · rw [hi, if_pos rfl, trunc_of_isInt d hi] at h
+    cases h; exact ReflCmp.compare_self
 
 
 theorem shift_neg (a : Dec) (e : Int) : shift (neg a) e = - shift a e := by
